@@ -26,7 +26,8 @@ CONSTANTS Target,        \* instructions after which the walk only closes what i
           AllowInvalid,  \* TRUE: one MutateInvalid step may happen
           AddrClass,     \* class of address constants: "addr" (mostly in bounds) or "edge" (around the end of the memory)
           Idioms,        \* TRUE: the compound steps that instruction selection fuses (compare+branch, operand atoms) are enabled
-          Features       \* subset of {"grow", "bulk", "table", "brtable"}: instruction groups outside the signature table
+          Features,      \* subset of {"grow", "bulk", "table", "brtable", "atomic", "tailcall", "host"}: further instruction groups
+          HostSigs       \* signatures of the imported host functions
 
 VARIABLES code, vstack, cstack, bad, fin,
           pend           \* "" or the second stage of a compound idiom step ("rel": operands pushed, relation to be chosen; "relsel": then select)
@@ -74,7 +75,7 @@ Mix == Len(code) + 3 * Len(vstack) + 5 * Len(cstack)
 Plain ==
   /\ Live /\ Growing
   /\ \E o \in Ops :
-       /\ o.imm \notin {"mem1", "mem2", "mem4", "mem8", "mem16", "memlane1", "memlane2", "memlane4", "memlane8"}
+       /\ o.imm \notin {"mem1", "mem2", "mem4", "mem8", "mem16", "memlane1", "memlane2", "memlane4", "memlane8", "amem1", "amem2", "amem4", "amem8"}
        /\ Len(o.pop) <= Avail /\ TopTypes(Len(o.pop)) = o.pop
        /\ vstack' = Pop(Len(o.pop)) \o o.push
        /\ Emit(<<I(o.op, o.imm, "")>>)
@@ -355,6 +356,51 @@ TableOps ==     \* table.size, table.copy, table.init, elem.drop, and a call thr
                             /\ Emit(<<C32("tidxA"), I("call_indirect_t1", s, "")>>)
   /\ UNCHANGED <<cstack, bad, fin>>
 
+(* atomic accesses (threads proposal, executed by one thread): [i32 t*] -> [t?].  The alignment immediate must be the
+   natural one and the effective address must be aligned, else the access traps; the address class "addrA" is aligned
+   most of the time.  Operands are taken from the stack through scratch locals so that the address can go below them. *)
+AtomicImms == {"amem1", "amem2", "amem4", "amem8"}
+AtomicOps == {o \in Ops : o.imm \in AtomicImms}
+Atomic ==
+  /\ Live /\ Growing /\ Has("atomic")
+  /\ \E o \in AtomicOps :
+       LET rest == SubSeq(o.pop, 2, Len(o.pop))  k == Len(rest) IN
+       /\ k <= Avail /\ TopTypes(k) = rest
+       /\ vstack' = Pop(k) \o o.push
+       /\ Emit((IF k = 2 THEN <<I("local.set", TmpOf(rest[2]) + 1, "")>> ELSE <<>>)
+               \o (IF k >= 1 THEN <<I("local.set", TmpOf(rest[1]), "")>> ELSE <<>>)
+               \o <<C32("addrA")>>
+               \o (IF k >= 1 THEN <<I("local.get", TmpOf(rest[1]), "")>> ELSE <<>>)
+               \o (IF k = 2 THEN <<I("local.get", TmpOf(rest[2]) + 1, "")>> ELSE <<>>)
+               \o <<I(o.op, o.imm, "")>>)
+  /\ UNCHANGED <<cstack, bad, fin>>
+(* ... and with operands of their own, so that they occur as often as the other accesses *)
+AtomicAtom ==
+  /\ Live /\ Growing /\ Has("atomic")
+  /\ \E o \in AtomicOps :
+       LET rest == SubSeq(o.pop, 2, Len(o.pop)) IN
+       /\ vstack' = vstack \o o.push
+       /\ Emit(<<C32("addrA")>> \o [i \in 1..Len(rest) |-> IF i = 1 THEN I("local.get", TmpOf(rest[i]), "") ELSE ConstOf(rest[i])] \o <<I(o.op, o.imm, "")>>)
+  /\ UNCHANGED <<cstack, bad, fin>>
+Fence == /\ Live /\ Growing /\ Has("atomic") /\ Len(code) % 6 = 0 /\ \E o \in Ops : o.imm = "fence" /\ Emit(<<I(o.op, "", "")>>)
+         /\ UNCHANGED <<vstack, cstack, bad, fin>>
+
+(* tail calls: return_call f / return_call_indirect: the callee's results must be the function's; like return, the rest
+   of the frame is unreachable.  Only on a conditional path (see Exit). *)
+TailCall ==
+  /\ Live /\ Growing /\ Has("tailcall") /\ Len(cstack) > 1 /\ Top.kind \in {"if", "else"}
+  /\ \E s \in CallSigs : /\ s.r = Results /\ Len(s.p) <= Avail /\ TopTypes(Len(s.p)) = s.p
+                         /\ \E ind \in BOOLEAN : Emit(IF ind THEN <<I("i32.const", "slot", s), I("return_call_indirect", s, "")>> ELSE <<I("return_call", s, "")>>)
+  /\ cstack' = [cstack EXCEPT ![Len(cstack)].unreach = TRUE]
+  /\ UNCHANGED <<vstack, bad, fin>>
+
+(* calls of host functions (imported from "env"): the host records name and arguments, the sequence is compared *)
+HostCall ==
+  /\ Live /\ Growing /\ Has("host")
+  /\ \E s \in HostSigs : /\ Len(s.p) <= Avail /\ TopTypes(Len(s.p)) = s.p
+                         /\ vstack' = Pop(Len(s.p)) \o s.r /\ Emit(<<I("callhost", s, "")>>)
+  /\ UNCHANGED <<cstack, bad, fin>>
+
 (* br_table: [i32] and the operands of the targets; all targets must expect the same types - here none *)
 BrTable ==
   /\ Live /\ Growing /\ Has("brtable") /\ Len(cstack) > 1 /\ Top.kind \in {"if", "else"}
@@ -412,6 +458,7 @@ MutateInvalid ==
 Step == \/ Plain \/ MemLoad \/ MemStore \/ MemLane \/ LocalGet \/ LocalSet \/ GlobalGet \/ GlobalSet \/ Drop \/ Select \/ Call
         \/ SetAddr \/ MemLoadReg \/ MemStoreReg \/ MemStoreAtom \/ GuardedAccess \/ FusedBin
         \/ MemSize \/ MemGrow \/ Bulk \/ RefProduce \/ RefConsume \/ TableOps \/ BrTable
+        \/ Atomic \/ AtomicAtom \/ Fence \/ TailCall \/ HostCall
         \/ OpenBlock \/ OpenLoop \/ OpenIf \/ Else \/ End \/ BrIf \/ Exit \/ Close \/ Finish \/ MutateInvalid
 (* a comparison result is consumed by a conditional most of the time (OpenIf is enabled whenever the guard holds) *)
 Next == IF pend # "" THEN PickRel
